@@ -14,7 +14,7 @@ ANCHORS = ['phylib.io.model:TemplateModel._find_best_channels', 'phylib.io.model
            'phylib.io.model:TemplateModel._get_template_dense', 'phylib.io.model:TemplateModel._get_template_sparse',
            'phylib.io.model:TemplateModel._unwhiten', 'phylib.io.model:TemplateModel.get_template',
            'phylib.io.model:TemplateModel.get_template_channels', 'phylib.io.model:TemplateModel.get_cluster_channels']
-RULE = ('Each case = one generated dataset (3/8/12/13/20 channels, 1-3 shanks, jittered or tie-prone '
+RULE = ('Each case = one generated dataset (3/8/12/13/20 channels, 1-3 shanks far apart or interleaved on one grid, jittered or tie-prone '
         'geometry, whitening present/absent, dense or sparse templates with -1 and all-zero columns) loaded '
         'with the real load_model; for every template: get_template under thresholds {default,0,.3,.5,.7,1} (a third of the datasets hold channels at exactly half the peak amplitude and exactly flat channels) x '
         'n_closest_channels {4,12} x unwhiten {T,F} x explicit channel lists (permuted subsets, list and '
@@ -52,7 +52,7 @@ def run_case(case, ctx):
     opts = dict(nc=nc, shanks=int(rng.integers(0, 4)), wm=bool(rng.random() < 0.75), sparse_templates=sparse,
                 nt=int(rng.integers(2, 6)), ties=bool(rng.random() < 0.3),
                 clusters=['same', 'curated'][int(rng.integers(0, 2))] if not sparse else 'same',
-                tnloc=int(rng.integers(2, 7)), ncdat_extra=0, exact_amps=bool(rng.random() < 0.35))
+                tnloc=int(rng.integers(2, 7)), ncdat_extra=0, exact_amps=bool(rng.random() < 0.35), interleave=bool(rng.random() < 0.4))
     spec = random_spec(rng, **opts)
     d = scratch_dir('c05_')
     desc = {'seed': case['seed'], 'opts': opts}
